@@ -365,7 +365,7 @@ func deploySOA() *Prog { return &Prog{End: "deploy", Code: hx(soaCode())} }
 var templateNames = []string{
 	"inner_transfer_then_revert", "outer_revert_after_inner_transfer", "failed_create_with_value",
 	"create_on_funded_address", "failed_create_on_funded_address", "selfdestruct_to_self", "selfdestruct_to_other",
-	"send_into_selfdestructed", "double_selfdestruct", "selfdestruct_in_reverted_frame",
+	"send_into_selfdestructed", "double_selfdestruct", "repeated_selfdestruct_after_refund", "selfdestruct_in_reverted_frame",
 	"touch_revert_credit_same_tx", "touch_revert_credit_cross_tx", "touch_revert_coinbase",
 	"value_above_balance", "precompile_value", "delegate_selfdestruct", "static_write_attempt",
 	"coinbase_is_sender", "coinbase_selfdestructs", "refund_dealloc", "make_empty", "random_program",
@@ -478,6 +478,39 @@ func (e *tplEnv) build(name string) *blockTpl {
 			}, End: "stop"}
 			t.Txs = append(t.Txs, e.progTx(name, p2, new(big.Int).Add(new(big.Int).Mul(v, big.NewInt(2)), v2)))
 		}
+	case "repeated_selfdestruct_after_refund":
+		// SD ; fund ; SD ; SD [; fund ; SD ; SD]: three or more SELFDESTRUCTs of one
+		// account in one transaction with value arriving in between. Every
+		// SELFDESTRUCT after the first must still zero the balance it hands over.
+		v, v2 := e.smallVal(), e.smallVal()
+		s := e.sender()
+		nP := e.nonce(s)
+		pAddr := createAddress(e.w.Addrs[s], nP)
+		child := createAddress(pAddr, e.newNonce())
+		sd := func(to common.Address, val *big.Int) Step {
+			return Step{Op: "call", To: addrS(to), Val: dec(val), Data: hx(gen.WordAddr(e.someone()))}
+		}
+		zero := new(big.Int)
+		seq := func(to common.Address) []Step {
+			st := []Step{sd(to, zero)}
+			if r.Bool() {
+				st = append(st, Step{Op: "call", To: addrS(to), Val: dec(v2)}) // plain refill (empty calldata: accepted)
+				st = append(st, sd(to, zero))
+			} else {
+				st = append(st, sd(to, v2)) // the refill rides on the second SELFDESTRUCT call
+			}
+			st = append(st, sd(to, zero))
+			if r.Bool() {
+				st = append(st, sd(to, v2), sd(to, zero), sd(to, zero))
+			}
+			return st
+		}
+		steps := append([]Step{{Op: "create", Val: dec(v), Init: deploySOA()}}, seq(child)...)
+		total := new(big.Int).Add(new(big.Int).Mul(v, big.NewInt(2)), new(big.Int).Mul(v2, big.NewInt(3)))
+		t.Txs = append(t.Txs, e.progTxFrom(name, s, nP, &Prog{Steps: steps, End: "stop"}, total))
+		// the same against a pre-deployed self-destructor (a plain account once it is gone)
+		a := []common.Address{addrSOA1, addrSOA2, gen.AddrSuicide, gen.AddrSuicide2}[r.Intn(4)]
+		t.Txs = append(t.Txs, e.progTx(name, &Prog{Steps: seq(a), End: "stop"}, total))
 	case "selfdestruct_in_reverted_frame":
 		// (a) a contract funded earlier in the same transaction is destroyed, with no
 		// value sent along, under a frame that fails: its balance must come back;
